@@ -35,7 +35,8 @@ class Fam:
             self.val = {"/a": 0, "/opt": None, "/arr/0": 0, "/arr/1": 0, "/arr/2": 0, "/inner/x": False,
                         "/inner/name": "", "/v": 0}
         elif fam == 3:
-            self.leaves = [(f"/lut/{i}", "u8") for i in range(12)] + [("/trip", "arr3i16"), ("/text", "hstr256"), ("/k", "u8")]
+            self.leaves = ([("/o/p", "u8"), ("/o/q", "u8")] + [(f"/lut/{i}", "u8") for i in range(12)] +
+                           [("/trip", "arr3i16"), ("/text", "hstr256"), ("/k", "u8"), ("/mode/A", "u8"), ("/mode/B", "u8")])
             self.val = {p: 0 for p, _ in self.leaves}
             self.val["/trip"] = [0, 0, 0]
             self.val["/text"] = ""
@@ -49,6 +50,7 @@ class Fam:
             for k in range(len(parts)):
                 self.internal.add("/" + "/".join(parts[:k]) if k else "")
         self.opt_present = False
+        self.mode = "o"           # family 3: active variant of `mode` (o = Off, c = Cal (skipped), a, b)
 
     def tree_text(self):
         if self.fam == 0:
@@ -60,24 +62,35 @@ class Fam:
                     f"{a0} N 0 - n:x,name 2 {a0} L l:bool b0 {a0} L l:hstr64 se "
                     f"a:1:-:-:-:-:0:0:1 L l:u8 i0")
         if self.fam == 3:
-            return (f"N 0 - n:lut,trip,text,k 4 {a0} A 12 " + " ".join("L l:u8 i0" for _ in range(12)) +
-                    f" {a0} L l:arr3i16 A(i0,i0,i0) {a0} L l:hstr256 se {a0} L l:u8 i0")
+            return (f"N 0 - n:o,lut,trip,text,k,mode 6 {a0} G option 1 N 0 - n:p,q 2 {a0} L l:u8 i0 {a0} L l:u8 i0 "
+                    f"{a0} A 12 " + " ".join("L l:u8 i0" for _ in range(12)) +
+                    f" {a0} L l:arr3i16 A(i0,i0,i0) {a0} L l:hstr256 se {a0} L l:u8 i0 "
+                    f"{a0} N 0 x n:A,B 2 {a0} L l:u8 i0 {a0} L l:u8 i0")
         return "N 0 - n:l0,l1,l2,l3,l4,l5 6 " + " ".join(f"{a0} L l:u8 i0" for _ in range(6))
 
     def norm(self, path):
         """keys of a path the way Path<_, '/'> reads it: everything before the first '/' ignored"""
         return path.split("/")[1:]
 
-    def classify(self, path):
-        """('leaf', p) | ('internal', p) | ('err', kind, depth)"""
+    def classify(self, path, typelevel=False):
+        """('leaf', p) | ('internal', p) | ('err', kind, depth); `typelevel`: as `traverse_by_key` / `root()` see the
+        path (runtime presence is ignored)"""
+        if typelevel:
+            try:
+                self._tl = True
+                return self.classify(path)
+            finally:
+                self._tl = False
         keys = self.norm(path)
         cur = ""
         for d, k in enumerate(keys):
             if cur in self.types:
                 # an absent Option is reported before surplus keys
                 if not self.present(cur):
-                    return ("err", "absent", d)
+                    return ("err", "absent", self.absent_depth(cur))
                 return ("err", "tooLong", d)
+            if self.fam == 3 and cur == "/o" and not self.present("/o"):
+                return ("err", "absent", 1)       # `None`: reported at the Option, whatever follows
             children = self.children(cur)
             if re.fullmatch(r"\+?[0-9]+", k) and str(int(k)) in children and str(int(k)).isdigit():
                 k = str(int(k))          # usize::from_str accepts a leading '+' and leading zeros
@@ -87,6 +100,8 @@ class Fam:
             cur = cur + "/" + children[k]
         if cur in self.types:
             return ("leaf", cur)
+        if self.fam == 3 and cur == "/o" and not self.present("/o"):
+            return ("err", "absent", 1)
         return ("internal", cur)
 
     def children(self, node):
@@ -108,7 +123,19 @@ class Fam:
         return [p for p, _ in self.leaves if p == node or p.startswith(node + "/")]
 
     def present(self, p):
+        if getattr(self, "_tl", False):
+            return True
+        if self.fam == 3:
+            if p.startswith("/o/") or p == "/o":
+                return self.opt_present
+            if p.startswith("/mode/"):
+                return self.mode == p[-1].lower()
+            return True
         return not (p == "/opt" and not self.opt_present)
+
+    def absent_depth(self, p):
+        """depth of the `Absent` error for a leaf that is not present"""
+        return 2 if p.startswith("/mode/") else 1
 
     def json(self, p):
         v = self.val[p]
@@ -131,7 +158,7 @@ class Fam:
         p = c[1]
         depth = len(self.norm(path))
         if not self.present(p):
-            return ("err", "absent", 1)
+            return ("err", "absent", self.absent_depth(p))
         ty = self.types[p]
         t = text.lstrip(" \n\t\r")
         clean = None
@@ -332,6 +359,9 @@ def model_items(events, recs, fam):
             exp.append({"k": "O"})
         elif ev == "optnone":
             items.append("O:none")
+            exp.append({"k": "O"})
+        elif ev.startswith("mode") and fam == 3:
+            items.append(f"M:{ev[4]}:{ev[5:] or 0}")
             exp.append({"k": "O"})
         elif ev == "drop":
             pending_reqs.clear()
